@@ -161,6 +161,10 @@ def run(ctx, report):
     from .c02 import accumulate_rule
     accumulate_rule(R5, ctx.mod('ia32_att'), ctx.mod('parse_ad'))
 
+    R7 = report.rule('C09.D7', 'string instructions: a segment override is printed and assembled back, whatever the order the operands are written in', floor=12)
+    from .c03 import string_trip_rule
+    string_trip_rule(ctx, R7, X)
+
 
 MUTANTS = [
     ('cmpsd-att-homonym', 'miasmx/arch/ia32_arch.py', "    if name in ['movsd', 'cmpsd'] and args[0][x86_afs.size] != 'xmm' \\", "    if name in ['movsd'] and args[0][x86_afs.size] != 'xmm' \\", 'C09.D6'),
